@@ -360,10 +360,10 @@ class G:
             c["body::" + self.pick(["accept", "custom", "jr:q"])] = self.text("Y")
 
     STATIC_DEFAULTS = {
-        "text": ["foo", "bar123", "https://my-site.com", "foo bar", "a.b"], "integer": ["5", "-3", "0"],
+        "text": ["foo", "bar123", "https://my-site.com", "foo bar", "a.b", "mod", "div", "no mod", "div or mod", "and", "or", "not", "true", "mod.", "div-2"], "integer": ["5", "-3", "0"],
         "decimal": ["1.5", "-0.25"], "date": ["2022-03-14"], "time": ["01:02:55", "01:02:55.000-07:00"],
         "dateTime": ["2022-03-14T01:02:55Z", "2022-03-14T01:02:55+10:00"], "geopoint": ["32.7 -117.1 14 5.01"],
-        "note": ["n"], "select_one": ["c1"], "select_multiple": ["c1 c2", "c1"], "image": ["a.png"], "barcode": ["b77"],
+        "note": ["n"], "select_one": ["c1", "mod", "div", "or"], "select_multiple": ["c1 c2", "c1"], "image": ["a.png"], "barcode": ["b77"],
         "range": ["3"], "hidden": ["hv"], "calculate": [], "acknowledge": ["OK"],
     }
 
